@@ -18,18 +18,18 @@ import (
 // is allowed (it is a pre-filter), delivering less loses logs.
 
 type matcherInput struct {
-	Case     int        `json:"case"`
-	Size     uint64     `json:"section_size"`
-	Sections int        `json:"sections"`
-	Density  int        `json:"item_density_1_in"`
-	Noise    int        `json:"noise_bits"`
-	Vectors  string     `json:"vectors"` // "real_generator" | "reference_transposition"
-	Filter   [][]string `json:"filter"`  // hex clauses; "nil" = wildcard clause
+	Case     int         `json:"case"`
+	Size     uint64      `json:"section_size"`
+	Sections int         `json:"sections"`
+	Density  int         `json:"item_density_1_in"`
+	Noise    int         `json:"noise_bits"`
+	Vectors  string      `json:"vectors"` // "real_generator" | "reference_transposition"
+	Filter   [][]string  `json:"filter"`  // hex clauses; "nil" = wildcard clause
 	Ranges   [][2]uint64 `json:"ranges"`
-	Service  string     `json:"service"` // "multiplex" | "direct"
-	Batch    int        `json:"batch"`
-	Threads  int        `json:"threads"`
-	Withhold bool       `json:"withhold_first_delivery"`
+	Service  string      `json:"service"` // "multiplex" | "direct"
+	Batch    int         `json:"batch"`
+	Threads  int         `json:"threads"`
+	Withhold bool        `json:"withhold_first_delivery"`
 }
 
 func matcherSizes(c *fw.Ctx) []uint64 {
